@@ -243,6 +243,9 @@ type FailCase struct {
 // driver collects <test>.case.json from the output directory.
 func SaveCase(test, key, reason string, c any) string {
 	setup()
+	mu.Lock()
+	failedTests[test] = true
+	mu.Unlock()
 	p := filepath.Join(outd, sanitize(test)+".case.json")
 	b, err := json.MarshalIndent(FailCase{Test: test, Key: key, Reason: reason, Case: c}, "", " ")
 	if err != nil {
@@ -250,6 +253,19 @@ func SaveCase(test, key, reason string, c any) string {
 	}
 	_ = os.WriteFile(p, b, 0o644)
 	return p
+}
+
+var failedTests = map[string]bool{}
+
+// AlreadyFailed reports whether a case of the test has failed in this
+// process.  Properties whose failing cases take seconds (liveness checks
+// that wait for the quiescence limit) return at once when it is true, so
+// that rapid does not spend minutes on shrinking: every candidate passes,
+// and the case saved at the first failure stays the replay file.
+func AlreadyFailed(test string) bool {
+	mu.Lock()
+	defer mu.Unlock()
+	return failedTests[test]
 }
 
 // Fail saves the case and fails the test.
